@@ -372,7 +372,7 @@ func init() {
 			},
 			&engine.Enum[c17Long]{
 				Name: "long-accumulations",
-				Rule: "for every predicate x start packet {PUSI+184A, PUSI+3} x continuation packet {184A, 184B, 3-byte, 1-byte} x K in 0..40 (thorough 0..400): start, K continuations, a second unit of K continuations with alternating payloads, restart with another unit start, two continuations, Reset, start and up to 40 continuations — every step judged by the list model (covers accumulated sizes up to 7.5 KiB / 74 KiB, beyond the BFS depth)",
+				Rule: "for every predicate x start packet {PUSI+184A, PUSI+3} x continuation packet {184A, 184B, 3-byte, 1-byte} x K in 0..40 and {254..257, 355..358} (thorough 0..400): start, K continuations, a second unit of K continuations with alternating payloads, restart with another unit start, two continuations, Reset, start and up to 40 continuations — every step judged by the list model (covers accumulated sizes up to 7.5 KiB / 74 KiB, beyond the BFS depth)",
 				Gen: func(r *engine.Run, emit func(c17Long)) {
 					maxK := 40
 					if r.Thorough() {
@@ -383,6 +383,12 @@ func init() {
 							for _, ct := range []int{2, 3, 5, 6} {
 								for k := 0; k <= maxK; k++ {
 									emit(c17Long{p, st, ct, k})
+								}
+								if !r.Thorough() {
+									// the counts next to 2^8 packets and 2^16 accumulated bytes
+									for _, k := range []int{254, 255, 256, 257, 355, 356, 357, 358} {
+										emit(c17Long{p, st, ct, k})
+									}
 								}
 							}
 						}
